@@ -9,6 +9,7 @@ mod scalar;
 mod polyfns;
 mod vecfns;
 mod schemefns;
+mod scan;
 
 fn answer_scalar(f: scalar::ScalarFn, args: &[&str]) -> Option<String> {
     let xs: Option<Vec<i64>> = args.iter().map(|s| s.parse::<i64>().ok()).collect();
@@ -62,6 +63,19 @@ fn answer(line: &str) -> String {
     }
     let name = toks[0];
     let args = &toks[1..];
+    if name == "rnglog" {
+        let inner = line.trim_start().strip_prefix("rnglog").unwrap_or("").trim_start();
+        return scan::rnglog(inner, &|l| answer(l));
+    }
+    if name == "interleave" {
+        // interleave <threads> <rounds> <request> ;; <request> ;; ...
+        if args.len() < 3 { return "bad-request".to_string(); }
+        let threads: usize = match args[0].parse() { Ok(v) => v, Err(_) => return "bad-request".to_string() };
+        let rounds: usize = match args[1].parse() { Ok(v) => v, Err(_) => return "bad-request".to_string() };
+        let rest = args[2..].join(" ");
+        let lines: Vec<String> = rest.split(";;").map(|x| x.trim().to_string()).filter(|x| !x.is_empty()).collect();
+        return scan::interleave(threads, rounds, lines, answer_owned);
+    }
     let r = if name == "sweep" {
         answer_sweep(args)
     } else if let Some(f) = scalar::lookup(name) {
@@ -76,11 +90,16 @@ fn answer(line: &str) -> String {
             ["packing", set, f] => vecfns::pack_fn(set, f, args),
             ["fips202", f] => schemefns::fips_fn(f, args),
             ["sign", set, f] => schemefns::sign_fn(set, f, args),
+            ["scan", f] => scan::scan_fn(f, args),
             [api, ty, f] => schemefns::api_fn(api, &format!("{}::{}", ty, f), args),
             _ => None,
         }
     };
     r.unwrap_or_else(|| "bad-request".to_string())
+}
+
+fn answer_owned(line: &str) -> String {
+    match panic::catch_unwind(AssertUnwindSafe(|| answer(line))) { Ok(a) => a, Err(_) => "fault".to_string() }
 }
 
 fn main() {
